@@ -426,6 +426,12 @@ def plan(tier):
                 for segs in ([bufsize], [1, 1500, 4096, 17]):
                     lh.append({"kind": "longhaul", "name": f"n={n} bufsize={bufsize} reads={reads} "
                                f"segs={segs}", "n": n, "bufsize": bufsize, "reads": reads, "segs": segs})
+    # receive buffers far larger than the default: one receive delivers 100 000 / 250 000 bytes at once
+    for bufsize, n in ((100000, 250000), (250000, 250001), (1 << 20, 300000)):
+        for reads in ([25], [1000, 3, 70000], [n]):
+            for segs in ([bufsize], [70000, 1, 65536, 65537]):
+                lh.append({"kind": "longhaul", "name": f"n={n} bufsize={bufsize} reads={reads} segs={segs}",
+                           "n": n, "bufsize": bufsize, "reads": reads, "segs": segs})
     for k in (1023, 4096, 70000):
         lh.append({"kind": "longhaul", "name": f"read({k}) over 1-byte receives", "n": k + 10,
                    "bufsize": 1, "reads": [k, 10], "segs": [1]})
